@@ -55,13 +55,21 @@ fn iso_strategy() -> impl Strategy<Value = Iso> {
         prop_oneof![4 => Just(false), 1 => Just(true)],
         // restart mode: both payments were in flight when an earlier lifetime died (Pending records, parts pending)
         (prop_oneof![3 => Just(false), 1 => Just(true)], 1u8..=2, 1u8..=2),
+        // A's store RPCs all fail (instead of being withheld): A is failed again and again while B runs
+        prop_oneof![4 => Just(0u8), 1 => 3u8..=5],
     )
-        .prop_map(|((na, nb, a_amountless, b_amountless, splits), (a_ok, b_ok, a_parts, b_funded, a_funded, b_parts), (k, _), shuffle, seed, mpp, a_rejecting, stuck_poll, (restart_mode, a_old_parts, b_old_parts))| {
+        .prop_map(|((na, nb, a_amountless, b_amountless, splits), (a_ok, b_ok, a_parts, b_funded, a_funded, b_parts), (k, _), shuffle, seed, mpp, a_rejecting, stuck_poll, (restart_mode, a_old_parts, b_old_parts), a_store_fails)| {
             let cfg = Cfg { mpp_timeout_s: mpp, ..Cfg::default() };
             let pa = PaymentSpec { preimage: if seed % 2 == 0 { 0x04 } else { 0x11 }, // sha256(32 x 0x04) and sha256(32 x 0x22) share their first byte
                 invoice_amount: if a_amountless { None } else { Some(1_000_000) }, tlv_amount: 777_000, hints: Hints::None, explicit_payee: false, recipient_ok: a_ok, drain_parts: a_parts };
             let pb = PaymentSpec { preimage: 0x22, invoice_amount: if b_amountless { None } else { Some(2_000_000) }, tlv_amount: 555_000, hints: Hints::Other, explicit_payee: true, recipient_ok: b_ok, drain_parts: b_parts };
+            let na = if a_store_fails > 0 { na.max(a_store_fails as usize).min(3) } else { na };
             let mut htlcs = well_formed_set(&cfg, 0, &pa, na, a_funded, 1000, &splits[..3]);
+            if a_store_fails > 0 {
+                // more HTLCs of A than any retry/circuit-breaker threshold a maintainer would pick
+                let extra = well_formed_set(&cfg, 0, &pa, (a_store_fails as usize).min(3), false, 1000, &splits[..3]);
+                htlcs.extend(extra);
+            }
             // A (only A) may also receive late HTLCs that are rejected for two reasons at once
             // (relative expiry too low AND declared total too low)
             for i in 0..a_rejecting {
@@ -100,6 +108,10 @@ fn iso_strategy() -> impl Strategy<Value = Iso> {
                 }
                 // A stays stuck in its status queries / waitsendpay
                 scn.freeze = Some((0, k % 5));
+            }
+            if a_store_fails > 0 && !restart_mode {
+                scn.freeze = None;
+                scn.fail_store = Some(0);
             }
             if stuck_poll {
                 // a periodic getinfo poll that lightningd never answers is outstanding while both payments run
